@@ -5,14 +5,25 @@ from . import _vp8l_common as C
 
 ID = "C07"
 AREA = "vp8l"
-COQ_TARGETS = ["theories/Props/C07.vo"]
+COQ_TARGETS = ["theories/Props/C07.vo", "theories/Props/C07f.vo"]
 REQUIRES = ["From Coq Require Import List NArith ZArith Bool.",
             "From Coq.Strings Require Import Byte.",
             "From MS Require Import Base.Bytes Base.Outcome Webp.Huffman Webp.HuffmanSpec Webp.BitBufSpec Webp.Vp8l Webp.Vp8lSpec "
             "Webp.Vp8lProofsTop Props.C07.",
             "Import ListNotations.", "Open Scope N_scope."]
-COQCHK = ["MS.Props.C07"]
-from ._c07_theorems import THEOREMS_C07 as THEOREMS      # pinned statements (one file for C07 and C08)
+COQCHK = ["MS.Props.C07", "MS.Props.C07f"]
+from ._c07_theorems import THEOREMS_C07 as _T07      # pinned statements (one file for C07 and C08)
+THEOREMS = list(_T07) + [
+    ("C07_file_level", """forall (allow lenient : bool) (ms : N) (inp : input) (fuel : nat),
+  webp_sanitize lossless_read allow lenient ms inp fuel = Ok tt -> webp_spec reference_ok allow inp = true"""),
+    ("C07_grammar_monotone", """forall (lok1 lok2 : N -> N -> bytes -> bool) (allow : bool) (inp : input),
+  (forall w h b, lok1 w h b = true -> lok2 w h b = true) ->
+  webp_spec lok1 allow inp = true -> webp_spec lok2 allow inp = true"""),
+]
+_FREQ = ["From Coq Require Import List NArith Bool.", "From Coq.Strings Require Import Byte.",
+         "From MS Require Import Base.Bytes Base.Outcome Base.Prog Webp.Container Webp.Grammar Webp.Vp8l Webp.Vp8lSpec Webp.WebpSpecProofs Props.C07f.",
+         "Open Scope N_scope."]
+REQUIRES_FOR = {"C07_file_level": _FREQ, "C07_grammar_monotone": _FREQ}
 
 TRUSTED = [
     "Coq 8.16.1 kernel (coqc; coqchk in the thorough tier); vm_compute only in Examples and the table equality C07_distance_map_eq; no native_compute",
@@ -194,7 +205,9 @@ def coq_bool(line, model_out):
     return C.coq_bool_vp8l(line, model_out)
 
 
-LEVEL_TEXT = ("Theorems (Coq, all byte strings, all dimensions in the container's range, no bound): the model of LosslessImage::read accepts exactly the "
+LEVEL_TEXT = ("At file level (C07_file_level = C06_sound + C07_model_sound + monotonicity of the grammar): if the modelled webpsan accepts an input, every VP8L chunk and "
+              "every losslessly compressed ALPH chunk of it (still or in an animation frame) is decodable by the reference reading of the specification for the "
+              "dimensions the container attaches to it. Stream level - theorems (Coq, all byte strings, all dimensions in the container's range, no bound): the model of LosslessImage::read accepts exactly the "
               "streams whose header phase the independent materialising specification decodes under webpsan's two documented strictness choices "
               "(C07_model_is_strict_spec: a simulation between the non-materialising validator and the materialising decoder), and every such stream is decoded "
               "by the reference reading of the specification (C07_model_sound, full statement, not partial); the nine violation classes of the property as "
